@@ -213,6 +213,13 @@ def handle (x : Sexp) : Sexp :=
         let c ← buildChains t [] fuelDefault mother
         pure (strs (expand Fmt.default (dictAliases d) true c)))
     | _, _ => bad "expand_modes"
+  | .list [.atom "expand_modes_fmt", .atom top, .atom sub, o, d, .atom mother] => match decOpts o, decDoc d with
+    | some o, some d =>
+      exceptSem (do
+        let t ← tables Gen.db o d
+        let c ← buildChains t [] fuelDefault mother
+        pure (strs (expand { top := top, sub := sub } (dictAliases d) true c)))
+    | _, _ => bad "expand_modes_fmt"
   | .list [.atom "print_rows", o, d, .atom mother, po] => match decOpts o, decDoc d, decPrintOpts po with
     | some o, some d, some po =>
       (match tables Gen.db o d with
